@@ -12,7 +12,7 @@ def verdicts (E : BlockCipher) (op : String) (args : List String) (res : Option 
   match parseOp op args with
   | none => []
   | some (.rt scale v) =>
-    let inRange := if scale == 1000000 then 0 ≤ v && v < 4294967296 else 0 ≤ v && v ≤ 100
+    let inRange := if scale == 1000000 then 0 ≤ v && v < 4294967296 else 0 ≤ v && v ≤ 1000   -- the range of C17_percentage_roundtrip
     if !inRange then [] else
     (match res with
      | some [r] => if r.toInt? == some v then [] else [("C17", if scale == 1000000 then "frequency-does-not-round-trip" else "percentage-does-not-round-trip")]
